@@ -2029,3 +2029,50 @@ func ruleParenKeepsFunctionLine(c *Ctx) {
 	}
 	c.check(sites >= 20 && reusedSites >= 1 && bad == nil, R, "parser:taken-over-function-node-keeps-its-line", pos, fmt.Sprintf("%d SetLine calls on result expressions, %d of them on a node taken over from a symbol, all under a test that excludes function expressions", sites, reusedSites), "a grammar action re-stamps an expression node it took over from one of its symbols without excluding function expressions: '(' newline 'function() … end' ')' reports the line of the parenthesis as linedefined")
 }
+
+// ruleDebugMetatableAndHuge: F91/F92. debug.getmetatable hands out the metatable itself (only the base
+// library's getmetatable honours __metatable), and math.huge is produced by math.Inf, not a finite constant.
+func ruleDebugMetatableAndHuge(c *Ctx) {
+	p := c.P
+	if c.Prop == "C04" {
+		const R = "R04-events"
+		if fn := c.need(R, "lua", "debugGetMetatable"); fn != nil {
+			pub := p.Fn("lua", "(*LState).GetMetatable")
+			raw := p.Fn("lua", "(*LState).metatable")
+			okc := len(callsTo(fn, pub)) == 0
+			n := 0
+			for _, cl := range callsTo(fn, raw) {
+				n++
+				if b, isK := constBool(cl.Call.Args[2]); !isK || !b {
+					okc = false
+				}
+			}
+			c.Sites++
+			c.check(okc && n > 0, R, "debugGetMetatable:reads-the-real-metatable", p.pos(fn.Pos()), "debug.getmetatable reads the metatable without consulting __metatable", "debug.getmetatable goes through the accessor that honours __metatable: for an object whose metatable has a __metatable field it returns that field instead of the metatable")
+		}
+		return
+	}
+	const R = "R15-mathmap"
+	rs := p.Fn("lua", "(*LTable).RawSetString")
+	fn := c.need(R, "lua", "OpenMath")
+	if fn == nil || rs == nil {
+		return
+	}
+	found, okc := false, false
+	for _, cl := range callsTo(fn, rs) {
+		if s, ok := constStr(cl.Call.Args[1]); !ok || s != "huge" {
+			continue
+		}
+		found = true
+		v := stripConv(stripMI(cl.Call.Args[2]))
+		if vc, ok := v.(*ssa.Call); ok {
+			if pk, n, ok := stdCall(vc); ok && pk == "math" && n == "Inf" {
+				if k, isK := constInt(vc.Call.Args[0]); isK && k >= 0 {
+					okc = true
+				}
+			}
+		}
+	}
+	c.Sites++
+	c.check(found && okc, R, "huge:is-positive-infinity", p.pos(fn.Pos()), "math.huge is math.Inf(+1)", "math.huge is not produced by math.Inf(+1): a finite constant (MaxFloat64) is not HUGE_VAL — math.huge == 1/0 is false")
+}
